@@ -70,7 +70,7 @@ func c04Decl(variant int, opts flags.Options) *decl.Decl {
 	top := &decl.Cmd{Name: "app", SubOptional: true, Opts: []*decl.Opt{
 		{Field: "All", Short: "a", Long: "all", Type: decl.TBool},
 		{Field: "Str", Short: "s", Long: "str", Type: decl.TString},
-		{Field: "Int", Short: "i", Long: "int", Type: decl.TInt},
+		{Field: "Int", Short: "i", Long: "int", Type: decl.TInt, Env: "C04_INT"},
 		{Field: "Map", Short: "m", Long: "map", Type: decl.TMapSI},
 		{Field: "List", Short: "l", Long: "list", Type: decl.TInts},
 		{Field: "Cb", Short: "c", Long: "cb", Type: decl.TFunc0},
@@ -92,6 +92,8 @@ func c04Decl(variant int, opts flags.Options) *decl.Decl {
 		top.SubOptional = false // a command is required: unknown words reach the unknown-command diagnosis
 	}
 	if variant == 1 {
+		// a described command whose name is the longest in bytes but not in characters (help listing arithmetic)
+		top.Cmds = append(top.Cmds, &decl.Cmd{Field: "Dem", Name: "démarrer", Desc: "start it"})
 		top.Opts = append(top.Opts,
 			&decl.Opt{Field: "Iface", Short: "I", Long: "iface", Type: decl.TIface},
 			&decl.Opt{Field: "Array", Short: "A", Long: "array", Type: decl.TArray},
@@ -128,6 +130,7 @@ func init() {
 				opts ^= fb
 			}
 		}
+		badEnvFirst := c.Deviate(2) == 1 // an earlier ParseArgs on the same parser failed because $C04_INT held an unconvertible value
 		var argv []string
 		if part == 0 {
 			maxLen := 4
@@ -167,7 +170,7 @@ func init() {
 			cache[key] = d
 		}
 		c.Describe(func() interface{} {
-			return map[string]interface{}{"declaration_variant": variant, "options": optNames(opts), "argv": fmt.Sprintf("%q", argv)}
+			return map[string]interface{}{"declaration_variant": variant, "options": optNames(opts), "argv": fmt.Sprintf("%q", argv), "earlier_parse_failed_on_bad_env": badEnvFirst}
 		})
 		cfg := &ref.Config{D: d}
 		res := ref.Run(cfg, argv)
@@ -176,6 +179,22 @@ func init() {
 		if b.Err != nil {
 			c.Fail("setup-error", b.Err.Error())
 			return
+		}
+		if badEnvFirst {
+			os.Setenv("C04_INT", "not-a-number")
+			wr := runParser(b, cfg, nil, runOpts{})
+			os.Unsetenv("C04_INT")
+			if wr.Panic != nil {
+				c.Fail("panic|"+wr.PanicSite, fmt.Sprint(wr.Panic))
+				return
+			}
+			// (a declaration with a required option reports that one instead: both causes are present, no precedence is defined)
+			if fe, ok := wr.Err.(*flags.Error); !ok || (fe.Type != flags.ErrMarshal && fe.Type != flags.ErrRequired) {
+				c.Fail("bad-environment-default-not-ErrMarshal|"+errType(wr.Err), fmt.Sprint(wr.Err))
+				return
+			}
+			rezero(b)
+			c.Hit("after-failed-parse")
 		}
 		var m0, m1 int64
 		if c04cap != nil {
@@ -233,6 +252,13 @@ func init() {
 			return
 		}
 		if ok, why := faultMatches(rr.Err, res.Fault); !ok {
+			// a vector with several independent faults: any of them may be the one reported
+			for _, f := range ref.FaultSet(cfg, argv) {
+				if ok2, _ := faultMatches(rr.Err, f); ok2 {
+					c.Hit("multi-fault-vector")
+					return
+				}
+			}
 			c.Fail("wrong-error-type|want-"+faultName(res.Fault)+"|got-"+fe.Type.String(), map[string]interface{}{"why": why, "message": fe.Message})
 		}
 	}
@@ -244,7 +270,7 @@ func init() {
 		Setup:      c04Setup,
 		DevBound:   func(bool) int { return 2 },
 		Rule: "three declarations covering every option kind (flags, scalars, map, slice, four callback signatures incl. one that always returns an error, Unmarshaler, ValueValidator, choices on a string and on a bool flag, optional argument, non-ASCII and digit short names, " +
-			"interface-, array-, pointer-to-bool typed fields, a required option, a command with an int positional; the third declaration makes the command mandatory so that unknown words reach the unknown-command diagnosis); option sets: None and Default with up to 2 of the 5 flags toggled (32 sets); inputs: (i) every byte string of length <= 4 (quick) / <= 5 (thorough) " +
+			"interface-, array-, pointer-to-bool typed fields, a required option, a command with an int positional; the third declaration makes the command mandatory so that unknown words reach the unknown-command diagnosis); option sets: None and Default with up to 2 of the 5 flags toggled (32 sets); as one more deviation the same parser first fails a parse because an environment default does not convert (must be ErrMarshal) and is then used again; inputs: (i) every byte string of length <= 4 (quick) / <= 5 (thorough) " +
 			"over {- = a s x \" \\ 0xC3 0xA9 : 5} as a token alone, after -s, after a command word, after --; (ii) every vector of <= 2 (quick) / <= 3 (thorough) tokens over 61 pathological tokens; oracle: returns normally, error nil or typed as the CLM's fault says, " +
 			"stdout/stderr deltas exactly as PrintErrors prescribes; distinct = distinct (declaration, option set, error class, wrote stdout?, wrote stderr?, model fault)",
 		Assumptions:  []string{"os.Stdout / os.Stderr are swapped for files per worker process and offset deltas read per leaf", "declarations reflect.StructOf cannot build (unexported fields in positional structs) are outside the space"},
